@@ -185,6 +185,17 @@ Theorem PlannerL_rt_run_spec : forall objs joins s0 sjs cs,
 Proof. exact rt_run_spec. Qed.
 Print Assumptions PlannerL_rt_run_spec.
 
+(* the merge-pointer side of (d): CfwManager.find_leftmost as the code has it (a dict cfw_merge_relation and a while loop; fuel =
+   the number of merges) returns exactly what replaying the merge history returns (rt_leftmost, used by rt_run), on every
+   history in which each merge joins two objects that are leftmost at that moment - and rt_run only produces such histories *)
+Theorem PlannerL_find_leftmost_replay : forall h, roots_hist h ->
+  forall x, mfollow (List.length h) (mrel_of h) x = rt_leftmost h x /\ mroot (mrel_of h) (rt_leftmost h x).
+Proof. exact mfollow_replay. Qed.
+Print Assumptions PlannerL_find_leftmost_replay.
+Theorem PlannerL_rt_run_roots_hist : forall objs joins s0 h s, rt_run objs joins s0 = Some (h, s) -> roots_hist h.
+Proof. exact rt_run_roots_hist. Qed.
+Print Assumptions PlannerL_rt_run_roots_hist.
+
 (* ---- the oracles the harness evaluates the model under are order oracles ---- *)
 Theorem PlannerL_ord_obs_ok : forall t, ord_ok (ord_obs t).
 Proof. exact ord_obs_ok. Qed.
@@ -205,3 +216,16 @@ Example PlannerL_ex_two_hyps :
   Permutation [ra2; rb2] [ra2; rb2] /\ star_ok [ra2; rb2] 7 4 [0; 2] /\ links_ok [mkl 100 LEFT 1 2] (7 :: map sr_id [ra2; rb2]) /\
   flat_roots mro_flat [ra2; rb2] /\ sr_cfw ra2 <> sr_cfw rb2.
 Proof. exact ex_two_hyps. Qed.
+(* (d) on the three-root chain R0 LEFT R1, R1 INNER R2 under ord_id: the run-time lookups of the two JoinSteps resolve to the
+   objects of the Links' left / right roots, and what the consumer computes on is the table of the single component
+   {R0, R1, R2} of join_in_order = (R0 left R1) inner R2 *)
+Example PlannerL_ex_rt_chain :
+  let p := plan_of_res (prepare_L ord_id g3 mro_flat links3) in
+  resolve_all (objs_of_plan p) (joins_of_plan ord_id links3 p) =
+    Some [ {| sj_jt := LEFT; sj_lk := ["k"%string]; sj_rk := ["k"%string]; sj_a := 0; sj_b := 2 |};
+           {| sj_jt := INNER; sj_lk := ["k"%string]; sj_rk := ["k"%string]; sj_a := 2; sj_b := 4 |} ] /\
+  (exists cs, join_in_order s03 [ {| sj_jt := LEFT; sj_lk := ["k"%string]; sj_rk := ["k"%string]; sj_a := 0; sj_b := 2 |};
+                                  {| sj_jt := INNER; sj_lk := ["k"%string]; sj_rk := ["k"%string]; sj_a := 2; sj_b := 4 |} ] = Some cs /\
+              comp_table cs 0 = consumer_table ord_id links3 s03 (prepare_L ord_id g3 mro_flat links3) /\
+              map fst cs = [[0; 2; 4]]).
+Proof. exact ex_rt_chain. Qed.
